@@ -257,7 +257,8 @@ class Full(_AbstractMassMatrix):
         """Constructor for diagonal mass matrices."""
         self.name = "diagonal mass matrix"
 
-        self.mass_matrix = _numpy.asarray(full)
+        # A copy of its own: the Cholesky factor is computed once, from this matrix
+        self.mass_matrix = _numpy.array(full, dtype=float)
 
         if do_hermitian_check:
             assert _numpy.allclose(self.mass_matrix, self.mass_matrix.T)
@@ -322,7 +323,7 @@ class Full(_AbstractMassMatrix):
 
     @property
     def matrix(self) -> _numpy.ndarray:
-        return self.mass_matrix
+        return self.mass_matrix.copy()
 
     @staticmethod
     def create_default(dimensions: int, rng: _numpy.random.Generator = None) -> "Full":
